@@ -2,6 +2,6 @@ SPECIFICATION Spec
 CONSTANTS
   MaxI = 31
   TsDivIsFloor = TRUE
-  CmpShiftChecked = TRUE
+  CmpShiftChecked = FALSE
 INVARIANTS DefinedIsRange WasmRefinesSrc TsRefinesSrc FoldMatchesTarget CmpShiftSound
 CHECK_DEADLOCK FALSE
